@@ -26,7 +26,7 @@ def cfg(name, mode, invs):
 def main(c):
     total = 0
     nontrivial = 0
-    for mode in ("cond", "chain"):
+    for mode in ("cond", "chain", "act"):
         r = vf.tlc(SPEC, "PolicyMC", cfg(f"C14.{mode}.cfg", mode, ["Sane", "Emit"]), workers=4, timeout=1500)
         c.add_tlc("cases-" + mode, r)
         if r.violated:
@@ -47,7 +47,7 @@ def main(c):
                 j = None
             if lines:
                 c.sample(json.loads(lines[len(lines) // 2]))
-        rc, so, se = vf.lib_run("policy_replay", [inp, outp], timeout=2400)
+        rc, so, se = vf.lib_run("policy_replay", [inp, outp] + (["wire"] if mode == "act" else []), timeout=2400)
         if rc != 0:
             raise vf.ToolError(f"policy_replay failed rc={rc}: {se[-2000:]}")
         seen = set()
@@ -56,11 +56,15 @@ def main(c):
                 total += j["summary"]["evaluations"]
                 c.cov["parts"]["replay-" + mode] = j["summary"]
                 continue
+            if "wire" in j:
+                total += j["wire"]["evaluations"]
+                c.cov["parts"]["decoder-accepted-contents"] = j["wire"]
+                continue
             kind = j["kind"]
             sig = kind
             if kind != "build":
                 conds = sorted(vf.canon(x) for st in j["pol"]["stmts"] for x in st["conds"])
-                sig = kind + "|" + "|".join(conds)
+                sig = kind + "|" + "|".join(conds) + "|" + "+".join(st["act"] for st in j["pol"]["stmts"])
             if sig in seen:
                 continue
             seen.add(sig)
@@ -70,10 +74,13 @@ def main(c):
     c.cov["distinct_nontrivial"] = nontrivial
     c.cov["exhaustive"] = True
     c.cov["rule"] = ("every condition of the catalogue (7 prefix sets x any/invert, 4 AS-path sets and 2 community sets x any/all/"
-                     "invert, AS-path length comparisons) x every route (15 prefixes x 7 AS paths x 5 community sets) and 72 "
-                     "two-statement policies x routes, each at 5 address embeddings (IPv4 at bit offsets 21, 8 and 0, IPv6 at 61 and 0 - at offset 0 the whole-space entries are the default routes); distinct = distinct (policy, route) cases")
+                     "invert, AS-path length comparisons) x every route (15 prefixes x 7 AS paths x 5 community sets) 72 two-statement policies x routes, and 121 pairs of "
+                     "action statements (set LOCAL_PREF, add / replace / remove communities, MED +50 / -10 / := 7 with saturation at both ends, "
+                     "prepend twice; a later statement reads what an earlier one wrote) x routes with and without MED / AS_PATH, each at 5 address embeddings (IPv4 at bit offsets 21, 8 and 0, IPv6 at 61 and 0 - at offset 0 the whole-space entries are the default routes); distinct = distinct (policy, route) cases")
     c.assumptions += ["defined sets, AS paths and communities are the fixed catalogue of Policy.tla (nested / overlapping / "
-                      "below-own-length prefix entries, AS_SET, trailing empty segment); actions: set LOCAL_PREF, add community",
+                      "below-own-length prefix entries, AS_SET, trailing empty segment); actions: see rule",
+                      "attribute contents: AS_PATH / COMMUNITY / MED / LOCAL_PREF octet strings (well-formed and not) that the real value decoder "
+                      "ACCEPTS are evaluated under every condition kind and action for panics only",
                       "RPKI, neighbour, ext/large-community and next-hop conditions are not in the catalogue"]
     import drvlib
     drvlib.policy_store(c)
